@@ -123,6 +123,8 @@ def run(check):
         want = impl_serde.get((pos, rule, s_)) or norm(runner([{"op": "serde", "pos": pos, "rule": rule, "s": s_}])[0], "serde")
         if got != want:
             check.known(kid, {"position": pos, "rule": rule, "ident": s_, "typeshare": got, "serde": want})
+    if not check.violations:
+        ident_part(check, impl_serde)
     n_div = sum(1 for (rule, s_), got in impl_ts.items() if rule in RULES
                 for pos in ("field", "variant") if "panic" not in impl_serde[(pos, rule, s_)] and got != impl_serde[(pos, rule, s_)])
     check.extra["divergences_from_serde_outside_conventional_names"] = n_div
@@ -130,3 +132,58 @@ def run(check):
     check.extra["exhaustive_scope"] = "strings of length <= %d over 6 class representatives" % maxlen
     check.assumptions += ["Unicode case mapping (char::is_uppercase, str::to_lowercase/uppercase) is a parameter of the model; its table for the alphabet is computed by Rust std on every run",
                           "serde's algorithm is the vendored serde_derive 1.0.214 internals/case.rs, compiled unchanged into the runner"]
+
+
+def ident_part(check, impl_serde):
+    """through parser::parse: the name a field / variant gets under each rule - incl. identifiers written as raw identifiers
+    (`r#type`, `r#Match`), whose `r#` serde strips *before* applying the rule - against the model and against the vendored
+    serde case.rs applied to the identifier without `r#`"""
+    from syn_gen import m_path, m_nv, m_list, lit_s, t_path, field
+    from gen import Gen
+    import l1
+    fields = ["user_id", "r#type", "r#match", "r#fn", "created_at", "r#async", "x", "r#loop_count"]
+    variants = ["FooBar", "r#Match", "r#Type", "Ok", "r#LoopCount", "A"]
+    ts = [m_path("typeshare")]
+    reqs, meta = [], []
+    for rule in [None] + RULES:
+        ra = [m_list("serde", [m_nv("rename_all", lit_s(rule))])] if rule else []
+        f = {"attrs": [], "items": [
+            {"kind": "struct", "attrs": ts + ra, "ident": "S", "generics": [],
+             "fields": ("named", [field([], w, t_path("u8")) for w in fields])},
+            {"kind": "enum", "attrs": ts + ra, "ident": "E", "generics": [],
+             "variants": [{"attrs": [], "ident": w, "fields": ("unit",)} for w in variants]}]}
+        m, r, text = l1.requests(f, Gen(check.rng))
+        reqs.append((m, r))
+        meta.append((rule, text))
+    names = set(w.replace("r#", "") for w in fields + variants)
+    sreq = [{"op": "serde", "pos": pos, "rule": rule, "s": w.replace("r#", "")}
+            for rule in RULES for pos, ws in (("field", fields), ("variant", variants)) for w in ws]
+    sans = iter(runner(sreq))
+    want = {}
+    for rule in RULES:
+        for pos, ws in (("field", fields), ("variant", variants)):
+            for w in ws:
+                want[(rule, pos, w)] = next(sans)
+    mans, rans, diffs = l1.compare(reqs)
+    for (rule, text), ma, ra in zip(meta, mans, rans):
+        check.saw(("ident", rule), nontrivial=rule is not None)
+        check.count("ident-level")
+        d = ra.get("ok") or {}
+        got = {}
+        for st in d.get("structs", []):
+            for w, fl in zip(fields, st["fields"]):
+                got[("field", w)] = fl["id"]["r"]
+        for en in d.get("enums", []):
+            for w, v in zip(variants, en["variants"]):
+                got[("variant", w)] = v["id"]["r"]
+        for (pos, w), g in sorted(got.items()):
+            exp = want[(rule, pos, w)].get("ok") if rule else w.replace("r#", "")
+            if exp is not None and g != exp:
+                check.violation("rename_all %s on %s `%s`: typeshare names it %r, serde_derive %r" % (rule, pos, w, g, exp),
+                                case={"source": text, "rule": rule, "position": pos, "ident": w}, impl=g, model=exp, failing_input=True)
+                return
+    if diffs:
+        i = diffs[0]
+        check.violation("parser::parse differs from the model on identifiers under rename_all %s: %s" % (meta[i][0], l1.first_diff(mans[i], rans[i])),
+                        case={"source": meta[i][1]}, impl=rans[i], model=mans[i], failing_input=False,
+                        broken="correspondence L1 getIdent (theorems TsV.C16.C16_field / C16_variant via C01/C02 parse halves)")
